@@ -158,7 +158,7 @@ pub fn replay(case: &Value) -> Result<(), String> {
 }
 
 pub fn t_alphabet(quick: bool) -> Vec<u16> {
-    let mut v: Vec<u16> = (1..=if quick { 130 } else { 192 }).collect();
+    let mut v: Vec<u16> = (1..=if quick { 160 } else { 192 }).collect();
     v.extend_from_slice(&[255, 256, 257, 1023, 1024, 1280]);
     if !quick {
         v.push(65535);
@@ -168,7 +168,7 @@ pub fn t_alphabet(quick: bool) -> Vec<u16> {
 
 pub fn run(ctx: &Ctx) -> i32 {
     let st = Stats::new();
-    let ks: Vec<u32> = if ctx.quick() { vec![10, 26] } else { vec![1, 10, 11, 26, 101, 257] };
+    let ks: Vec<u32> = if ctx.quick() { vec![10, 26, 101] } else { vec![1, 10, 11, 26, 101, 257] };
     let ts = t_alphabet(ctx.quick());
     let kinds: Vec<u8> = [vk::AUTO, vk::AVX512, vk::AVX2, vk::SSSE3, vk::FALLBACK].into_iter().filter(|&k| k == vk::AUTO || vk::supported(k)).collect();
     for &kind in &kinds {
@@ -207,7 +207,7 @@ pub fn run(ctx: &Ctx) -> i32 {
     st.sample(json!({"kernel":"avx2","K":26,"T":67,"mode":"plan","relations":["byte j of each of the 38 packets = 1-byte packet of column j, j=0..66, data pos and lcg","Enc(A^B)=Enc(A)^Enc(B) for 6 pairs","Enc(c*A)=c*Enc(A) for all 256 c","decode with symbols {0,13} erased"]}));
     finish(ctx, &st, Finish {
         level: "exploration",
-        rule: format!("grid: kernel family in {:?} (forced through the public dispatchers) x K in {:?} x every T in 1..={} and {{255,256,257,1023,1024,1280{}}} x encoder built via cache / explicit plan / unplanned; ESIs: all source, 8 near repair, 4 far repair. For every point: (i) byte j of every packet equals the 1-byte packet obtained by encoding byte column j alone, for every j (data pos and lcg), (ii) additivity for all pairs of {{pos,lcg,unit0,ff}}, (iii) homogeneity for all 256 scalars (T<=70 and T around 128/192/256; 6 scalars elsewhere) with reference GF multiplication, (iv) decoding with two source symbols erased returns the data. distinct_nontrivial = (kernel,K,T,mode) points.", kinds.iter().map(|&k| kind_name(k)).collect::<Vec<_>>(), ks, if ctx.quick() { 130 } else { 192 }, if ctx.quick() { "" } else { ",65535" }),
+        rule: format!("grid: kernel family in {:?} (forced through the public dispatchers) x K in {:?} x every T in 1..={} and {{255,256,257,1023,1024,1280{}}} x encoder built via cache / explicit plan / unplanned; ESIs: all source, 8 near repair, 4 far repair. For every point: (i) byte j of every packet equals the 1-byte packet obtained by encoding byte column j alone, for every j (data pos and lcg), (ii) additivity for all pairs of {{pos,lcg,unit0,ff}}, (iii) homogeneity for all 256 scalars (T<=70 and T around 128/192/256; 6 scalars elsewhere) with reference GF multiplication, (iv) decoding with two source symbols erased returns the data. distinct_nontrivial = (kernel,K,T,mode) points.", kinds.iter().map(|&k| kind_name(k)).collect::<Vec<_>>(), ks, if ctx.quick() { 160 } else { 192 }, if ctx.quick() { "" } else { ",65535" }),
         exhaustive: false,
         assumptions: vec!["T outside the alphabet (193..65534 except the listed ones) is not enumerated".into(), "NEON cannot execute on this host".into()],
         extra: Map::new(),
